@@ -76,6 +76,8 @@ void BaseTestbenchRecorder::declareSignals(std::ostream &stream)
 
 		stream << "	SIGNAL ";
 		cf.formatDeclaration(stream, decl);
+		if (ioPin->isBiDirectional()) // the testbench must not drive a bidirectional pin ('U') before the first SET
+			stream << (isSingleBit(decl.dataType) ? " := 'Z'" : " := (others => 'Z')");
 		stream << ';' << std::endl;
 	}
 
